@@ -222,6 +222,20 @@ def build(P):
                     L += ["OUTPUT " + ", \" \", ".join(showcell("b[%s]" % c, tb) for c in cells)]
                     L += [setcell("a[%s]" % cells[-1], ta, 0), setcell("b[%s]" % cells[0], tb, 4), "OUTPUT " + ", \" \", ".join([showcell("a[%s]" % c, ta) for c in cells] + [showcell("b[%s]" % c, tb) for c in cells])]
                     am.append("\n".join(L))
+        for ta in ETY:
+            if ta in ("PA", "PB"): continue
+            cells = ["1", "2", "3"]
+            # the SOURCE is untouched since its declaration, the destination holds values: the copy must reset every cell to the default
+            L = list(PRE) + ["DECLARE a : ARRAY[1:3] OF %s" % ta, "DECLARE b : ARRAY[1:3] OF %s" % ta] + [setcell("b[%s]" % c, ta, k + 1) for k, c in enumerate(cells)]
+            L += ["OUTPUT \"before \", " + ", \" \", ".join(showcell("b[%s]" % c, ta) for c in cells), "b <- a", "OUTPUT \"copied \", " + ", \" \", ".join(showcell("b[%s]" % c, ta) for c in cells)]
+            am.append("\n".join(L))
+            # only ONE cell of the source was ever written; a source that was only read
+            L = list(PRE) + ["DECLARE a : ARRAY[1:3] OF %s" % ta, "DECLARE b : ARRAY[1:3] OF %s" % ta] + [setcell("b[%s]" % c, ta, k + 1) for k, c in enumerate(cells)] + [setcell("a[2]", ta, 4)]
+            L += ["b <- a", "OUTPUT \"copied \", " + ", \" \", ".join(showcell("b[%s]" % c, ta) for c in cells)]
+            am.append("\n".join(L))
+            L = list(PRE) + ["DECLARE a : ARRAY[1:3] OF %s" % ta, "DECLARE b : ARRAY[1:3] OF %s" % ta] + [setcell("b[%s]" % c, ta, k + 1) for k, c in enumerate(cells)] + ["OUTPUT \"peek \", " + showcell("a[1]", ta)]
+            L += ["b <- a", "OUTPUT \"copied \", " + ", \" \", ".join(showcell("b[%s]" % c, ta) for c in cells)]
+            am.append("\n".join(L))
         for dst, src in [("1:3", "0:2"), ("1:3", "1:4"), ("1:2, 1:3", "1:3, 1:2"), ("1:6", "1:2, 1:3"), ("1:2, 1:3", "1:2, 1:4"), ("0:1, 1:3", "1:2, 1:3")]:
             am.append("\n".join(["DECLARE a : ARRAY[%s] OF INTEGER" % src, "DECLARE b : ARRAY[%s] OF INTEGER" % dst, "OUTPUT \"before\"", "b <- a", "OUTPUT \"not reached\""]))
         ARRAY_ASSIGN[:] = am
@@ -459,6 +473,7 @@ def build(P):
         tyof = {"NEGINT": "INTEGER"}
         forms = ["assign", "for", "input", "read", "readfile", "getrecord", "byref", "deref", "byref-chain", "fn-byref", "redeclare", "reconst", "input-deref", "byref-input", "deref-copy", "reconst-same", "for-in-proc", "getrecord-byref",
                  # end-of-file reads, and writing statements that run FIRST on a variable and THEN on the constant (one source statement, two targets)
+                 "caller-local-same-name", "caller-param-same-name",
                  "readfile-eof", "readfile-empty", "readfile-eof-byref", "reuse-assign", "reuse-input", "reuse-readfile", "reuse-getrecord", "reuse-deref-loop", "reuse-deref-proc", "reuse-for"]
         progs = []
         for lt, (v, w) in lits.items():
@@ -491,6 +506,11 @@ def build(P):
                                                           "PROCEDURE P(BYREF x : %s)" % ty, "GETRECORD \"r.dat\", x", "ENDPROCEDURE", "CALL P(K)"]
                     elif form == "redeclare": L += ["DECLARE K : %s" % ty]
                     elif form == "reconst": L += ["CONSTANT K = %s" % w]
+                    elif form == "caller-local-same-name":
+                        # the callee must see the GLOBAL constant, not the local of whoever called it
+                        L += ["PROCEDURE Callee()", "OUTPUT \"callee sees \", K", "K <- %s" % w, "OUTPUT \"callee wrote\"", "ENDPROCEDURE", "PROCEDURE Caller()", "DECLARE K : %s" % ty, "K <- %s" % w, "OUTPUT \"caller local \", K", "CALL Callee()", "OUTPUT \"caller after \", K", "ENDPROCEDURE", "CALL Caller()"]
+                    elif form == "caller-param-same-name":
+                        L += ["FUNCTION Peek() RETURNS %s" % ty, "RETURN K", "ENDFUNCTION", "PROCEDURE Caller(K : %s)" % ty, "OUTPUT \"param \", K", "OUTPUT \"peek \", Peek()", "K <- Peek()", "OUTPUT \"param now \", K", "ENDPROCEDURE", "CALL Caller(%s)" % w, "K <- %s" % w]
                     elif form == "readfile-eof":
                         files = {"in.txt": ("f", b"line1\nline2\n")}
                         L += ["OPENFILE \"in.txt\" FOR READ", "READFILE \"in.txt\", s1", "READFILE \"in.txt\", s2", "OUTPUT EOF(\"in.txt\")", "READFILE \"in.txt\", K"]
@@ -583,6 +603,12 @@ def build(P):
 
     def c09_cases(tier, seed):
         shapes = [
+            # ONE dereference site, several pointers, one activation: an array of pointers walked by a loop (read, write, read again), pointers in array-of-record fields, a pointer to a pointer that is re-pointed
+            "TYPE P = ^INTEGER\nDECLARE ps : ARRAY[1:3] OF P\na <- 1\nb <- 2\nc <- 3\nps[1] <- ^a\nps[2] <- ^b\nps[3] <- ^c\nFOR i <- 1 TO 3\nOUTPUT ps[i]^\nps[i]^ <- ps[i]^ * 10\nNEXT i\nOUTPUT a, \" \", b, \" \", c\nFOR i <- 3 TO 1 STEP - 1\nOUTPUT ps[i]^\nNEXT i",
+            "TYPE P = ^STRING\nTYPE Cell\nDECLARE p : P\nDECLARE k : INTEGER\nENDTYPE\nDECLARE cs : ARRAY[1:2] OF Cell\ns1 <- \"one\"\ns2 <- \"two\"\ncs[1].p <- ^s1\ncs[2].p <- ^s2\ni <- 1\nWHILE i <= 2 DO\nOUTPUT cs[i].p^\ncs[i].p^ <- cs[i].p^ & \"!\"\ni <- i + 1\nENDWHILE\nOUTPUT s1, \" \", s2",
+            "TYPE P = ^INTEGER\nTYPE PP = ^P\nDECLARE p1, p2 : P\nDECLARE pp : PP\nx <- 1\ny <- 2\np1 <- ^x\np2 <- ^y\nFOR k <- 1 TO 2\nIF k = 1 THEN\npp <- ^p1\nELSE\npp <- ^p2\nENDIF\nOUTPUT pp^^\npp^^ <- pp^^ + 100\nNEXT k\nOUTPUT x, \" \", y",
+            "TYPE P = ^INTEGER\nDECLARE ps : ARRAY[1:2, 1:2] OF P\na <- 1\nb <- 2\nc <- 3\nd <- 4\nps[1, 1] <- ^a\nps[1, 2] <- ^b\nps[2, 1] <- ^c\nps[2, 2] <- ^d\nFOR i <- 1 TO 2\nFOR j <- 1 TO 2\nps[i, j]^ <- ps[i, j]^ + 10 * i + j\nNEXT j\nNEXT i\nOUTPUT a, \" \", b, \" \", c, \" \", d",
+            "TYPE P = ^INTEGER\nDECLARE ps : ARRAY[1:3] OF P\na <- 1\nb <- 2\nc <- 3\nps[1] <- ^a\nps[2] <- ^b\nps[3] <- ^c\nPROCEDURE Bump(k : INTEGER)\nps[k]^ <- ps[k]^ + 5\nOUTPUT ps[k]^\nENDPROCEDURE\nFOR i <- 1 TO 3\nCALL Bump(i)\nCALL Bump(4 - i)\nNEXT i\nOUTPUT a, \" \", b, \" \", c",
             # a pointer that HAS a live target is overwritten with a never-set pointer (every destination kind and channel): it must be unset afterwards
             "TYPE P = ^INTEGER\nDECLARE p, q : P\nx <- 5\np <- ^x\nOUTPUT p^\np <- q\nOUTPUT \"assigned\"\nOUTPUT p^\nOUTPUT \"not reached\"",
             "TYPE P = ^INTEGER\nDECLARE p, q : P\nx <- 5\np <- ^x\np <- q\np^ <- 9\nOUTPUT \"not reached \", x",
